@@ -25,6 +25,8 @@ Definition ok_dec {A} (r : res A) : option { a : A | r = Ok a } :=
   | Ok a => Some (exist _ a eq_refl)
   | Bad _ _ => None
   end.
+Definition dec_false (b : bool) : option (b = false) :=
+  match b as b' return option (b' = false) with false => Some eq_refl | true => None end.
 Definition some_dec {A} (r : option A) : option { a : A | r = Some a } :=
   match r as r' return option { a : A | r' = Some a } with
   | Some a => Some (exist _ a eq_refl)
@@ -378,7 +380,8 @@ Fixpoint gen_fields_pos (all fs : list (ident * sty)) : gen (option (tfields G a
             | _, _ => None
             end)
   end.
-(* named, in the order of the remaining fields; n bounds the number of steps *)
+(* named, in the order of the remaining fields, possibly closed by `others` when the remaining fields are of one
+   type; n bounds the number of steps *)
 Fixpoint gen_fields_named (n : nat) (all fs : list (ident * sty)) : gen (option (tfields G all fs)) :=
   match n with
   | O => gret (match fs as fs0 return option (tfields G all fs0) with
@@ -388,6 +391,15 @@ Fixpoint gen_fields_named (n : nat) (all fs : list (ident * sty)) : gen (option 
       match fs as fs0 return gen (option (tfields G all fs0)) with
       | [] => gret (Some (exist _ ANil (FO_Nil MD GE G all)))
       | ft :: r =>
+          oth <= pick 3 ;;
+          match (if oth =? 0 then dec_true (forallb (fun y => sty_eqb (snd y) (snd ft)) r) else None) with
+          | Some same =>
+              e <= gr (snd ft) ;;
+              gret (match e with
+                    | Some e => Some (exist _ (ACons ChOthers (proj1_sig e) ANil)
+                                            (FO_Others MD GE G all ft r _ same (proj2_sig e)))
+                    | None => None end)
+          | None =>
           let f := o (fst ft) in
           match some_dec (find_field all f), dec_true (existsb (fun y => fst y =? o_id f) (ft :: r)) with
           | Some (exist _ x px), Some pe =>
@@ -395,13 +407,32 @@ Fixpoint gen_fields_named (n : nat) (all fs : list (ident * sty)) : gen (option 
               rest <= gen_fields_named n' all (filter (fun y => negb (fst y =? o_id f)) (ft :: r)) ;;
               gret (match e, rest with
                     | Some e, Some rs =>
-                        Some (exist _ (ACons (ChName f) (proj1_sig e) (proj1_sig rs))
-                                    (FO_Named MD GE G all (ft :: r) f x _ _ px pe (proj2_sig e) (proj2_sig rs)))
+                        match dec_false (args_has_pos (proj1_sig rs)) with
+                        | Some np =>
+                            Some (exist _ (ACons (ChName f) (proj1_sig e) (proj1_sig rs))
+                                        (FO_Named MD GE G all (ft :: r) f x _ _ px pe np (proj2_sig e) (proj2_sig rs)))
+                        | None => None
+                        end
                     | _, _ => None
                     end)
           | _, _ => gret None
           end
+          end
       end
+  end.
+(* the first k fields positionally, the others named / `others` *)
+Fixpoint gen_fields_mixed (k : nat) (all fs : list (ident * sty)) : gen (option (tfields G all fs)) :=
+  match k, fs as fs0 return gen (option (tfields G all fs0)) with
+  | S k', ft :: r =>
+      x <= gr (snd ft) ;;
+      rest <= gen_fields_mixed k' all r ;;
+      gret (match x, rest with
+            | Some e, Some rs =>
+                Some (exist _ (ACons ChPos (proj1_sig e) (proj1_sig rs))
+                            (FO_Pos MD GE G all ft r _ _ (proj2_sig e) (proj2_sig rs)))
+            | _, _ => None
+            end)
+  | _, fs0 => gen_fields_named (length fs0) all fs0
   end.
 Fixpoint gen_elems_pos (el : sty) (n : nat) : gen (option (telems G el n)) :=
   match n as n0 return gen (option (telems G el n0)) with
@@ -438,8 +469,10 @@ Fixpoint gen_r (fuel : nat) (G : env) (c : gctx) (t : sty) {struct fuel} : gen (
       match t as t0 return gen (option (troot G t0)) -> gen (option (troot G t0)) with
       | SRec u n fs => fun dflt =>
           if w =? 0 then dflt else
+          km <= pick_nat (length fs) ;;
           a <= (if w =? 1 then gen_fields_pos G (gen_r f G c) fs fs
-                else gen_fields_named G (gen_r f G c) (length fs) fs fs) ;;
+                else if w =? 2 then gen_fields_named G (gen_r f G c) (length fs) fs fs
+                else gen_fields_mixed G (gen_r f G c) km fs fs) ;;
           match a with
           | Some a =>
               match dec_true (not_single (proj1_sig a)) with
@@ -693,10 +726,15 @@ Fixpoint fresh_ids (n : nat) : gen (list ident) :=
 Definition erase_opt {G t} (e : option (troot MD GE G t)) : option expr :=
   match e with Some e => Some (proj1_sig e) | None => None end.
 
+(* all the type marks the context has for type t (the type itself and its subtypes) *)
+Definition marks_of (c : gctx) (t : sty) : list tmark :=
+  (match t with SBool => [TMBool] | SInt => [TMInt] | SBit => [TMBit] | _ => [] end) ++
+  flat_map (fun x => if sty_eqb (gt_ty x) t then [ref_tmark (gt_ref x) (gt_id x)] else []) (c_types c).
+
 Definition gen_type_decl (st : dstate) : gen (decl * (gctx -> gctx)) :=
   let G := d_env st in let c := d_ctx st in
   x <= fresh_id ;;
-  w <= pick 6 ;;
+  w <= pick 8 ;;
   if w <? 2 then
     n <= pick_nat 3 ;; lits <= fresh_ids (2 + n) ;;
     let td := TDEnum (map o lits) in
@@ -706,16 +744,26 @@ Definition gen_type_decl (st : dstate) : gen (decl * (gctx -> gctx)) :=
     hi <= pick 100 ;;
     let td := TDInt 0 (hi + 1) in
     gret (DType (o x) td, fun c => add_type c (GTy RSimple x (mk_tydef GE G (o x) td)))
-  else if w <? 4 then
+  else if w <? 5 then
     (* subtype *)
     tt <= pick_type c ;;
     hi <= pick 8 ;;
     let rng := if is_int (snd tt) then Some (0, hi) else None in
     gret (DSubtype (o x) (fst tt) rng, fun c => add_type c (GTy RSimple x (snd tt)))
-  else if w <? 5 then
+  else if w <? 7 then
+    (* record; later fields often get (another mark of) the type of the first field *)
     n <= pick_nat 3 ;; fs <= fresh_ids (1 + n) ;;
+    t0 <= pick_type c ;;
     fts <= (fix go (l : list ident) : gen (list (occ * tmark)) :=
-              match l with [] => gret [] | f :: r => tt <= pick_type c ;; rest <= go r ;; gret ((o f, fst tt) :: rest) end) fs ;;
+              match l with
+              | [] => gret []
+              | f :: r =>
+                  same <= pick 2 ;;
+                  mk <= pick_from (marks_of c (snd t0)) ;;
+                  tt <= pick_type c ;;
+                  rest <= go r ;;
+                  gret ((o f, match same, mk with 0, Some m => m | _, _ => fst tt end) :: rest)
+              end) fs ;;
     let td := TDRec fts in
     gret (DType (o x) td, fun c => add_type c (GTy RSimple x (mk_tydef GE G (o x) td)))
   else
